@@ -57,6 +57,7 @@ fn main() {
                     "pc" => schemes::run(&c, &mut out),
                     "c16" => c16::run(&c, &mut out),
                     "c13" => c13::run(&c, &mut out),
+                    "c08" => schemes::run_c08(&c, &mut out),
                     k => panic!("unknown case kind {}", k),
                 }));
                 writeln!(o, "case {}", c.id).unwrap();
